@@ -94,3 +94,9 @@ class _BarChartXmlWriter''')],
      [(X, '        <c:radarStyle val="{radar_style}"/>\\n', '        <c:radarStyle val="{radar_style}"/>\\n        <c:gapWidth val="1"/>\\n')],
      "R7.1 _RadarChartXmlWriter"),
 ]
+
+MUTANTS += [
+    ("next-order-from-last-series", "the next c:order value is the last series' order plus one",
+     [("src/pptx/oxml/chart/chart.py", "        return max(order_vals) + 1", "        return self.last_ser.order.val + 1")],
+     "R7.4 CT_PlotArea.next_order"),
+]
